@@ -155,6 +155,9 @@ class VG:
                     return ("matmul", recv, args[0])
             if recv == ("glob", "np") and f.attr == "dot" and len(args) == 2 and not kws:
                 return ("matmul", args[0], args[1])
+            if recv == ("glob", "np") and f.attr in ("array", "copy", "asarray", "ascontiguousarray") and len(args) == 1 \
+                    and not kws and args[0][0] not in ("list", "tuple", "comp"):
+                return args[0]  # value identity of an array copy / no-op conversion
             if recv == ("sym", "self") and self.cls and self.depth < 2 and self.inline:
                 mf = self.find(f.attr)
                 if mf is not None and not mf.is_property:
@@ -171,6 +174,11 @@ class VG:
                         if sub.ret is not None:
                             return sub.ret
             return ("call", ("attr", recv, f.attr), args, kws)
+        if isinstance(f, ast.Name) and f.id == "slice" and f.id not in self.env and not kws and 1 <= len(args) <= 3:
+            # slice(a, b[, c]) is the object form of a[b:c]
+            full = (None,) + args if len(args) == 1 else args
+            full = tuple(full) + (None,) * (3 - len(full))
+            return ("slice",) + full
         fv = self.ev(f)
         return ("call", fv, args, kws)
 
